@@ -298,6 +298,11 @@ func CheckC05(c Case, p *prepared) (fails []Failure, skipped bool) {
 	add := func(clause, detail string) {
 		fails = append(fails, Failure{Prop: "C05", Clause: clause, Detail: trunc(detail, 700)})
 	}
+	// pinned regression inputs state which comments their source contains
+	if exp, ok := ExpectedComments[c.In.Src]; ok && !eqStrs(p.coms, exp) {
+		add("source_comments", fmt.Sprintf("the source contains the comments %q but Parse returned %q", exp, p.coms))
+		return fails, false
+	}
 	if c.Opt.Minify {
 		var want []string
 		for _, cm := range collectComments(p.f) {
